@@ -165,7 +165,9 @@ func compromiseCheck(a, b, got tableView, cutoff float64) string {
 			mean := (sa + sb) / 2 * 10000
 			okMean := math.Abs(float64(g)-mean) <= 1.0000001
 			okZero := g == 0
-			nearCut := math.Abs(sa-cutoff) <= 1e-4 || math.Abs(sb-cutoff) <= 1e-4
+			// a share within 1e-4 of the cut-off may fall on either side after the scaling to 10000; a share that IS the
+			// cut-off (0 with cut-off 0, 1 with cut-off 1, 1/2 with 0.5 ...) is not below it and must be kept
+			nearCut := (math.Abs(sa-cutoff) <= 1e-4 && sa != cutoff) || (math.Abs(sb-cutoff) <= 1e-4 && sb != cutoff)
 			below := sa < cutoff || sb < cutoff
 			switch {
 			case nearCut:
